@@ -709,6 +709,20 @@ def rule_index(ctx):
                     ctx.ob("C18.INDEX", st_, "rename: after replacing the same-named destination entry the search loop is left (the else-append does not run as well)", ok,
                            "MemoryPathIO.rename replaces the destination entry and then also reaches the loop's else: the renamed entry is in the directory twice",
                            construct="index:rename:replace without break")
+    if rn is not None:
+        # the removal loop finds the entry by its OLD name: the entry is renamed only after it was taken out of the source directory (or the loop compares identities)
+        renames = [n for n in walk_no_nested(rn) if isinstance(n, ast.Assign) and isinstance(n.targets[0], ast.Attribute) and n.targets[0].attr == "name"]
+        for l in [x for x in walk_no_nested(rn) if isinstance(x, ast.For)]:
+            pops = [c for c in ast.walk(l) if isinstance(c, ast.Call) and isinstance(c.func, ast.Attribute) and c.func.attr in ("pop", "remove") and any(src(c.func.value) == f"{sp}.content" for sp in s_par)]
+            dels = [d_ for d_ in ast.walk(l) if isinstance(d_, ast.Delete) and any(src(t).startswith(f"{sp}.content[") for sp in s_par for t in d_.targets)]
+            if not pops and not dels:
+                continue
+            by_name = any(isinstance(t, ast.Compare) and any(src(x).endswith(".name") for x in [t.left] + t.comparators) for t in ast.walk(l) if isinstance(t, ast.Compare))
+            early = [a for a in renames if (a.lineno, a.col_offset) < (l.lineno, l.col_offset)]
+            ctx.ob("C18.INDEX", l, "rename: the entry keeps its old name until it has been taken out of the source directory", not (by_name and early),
+                   f"MemoryPathIO.rename sets `{src(early[0])[:40] if early else ''}` before the loop that looks the entry up by its old name in the source directory: the lookup "
+                   "no longer finds it, the entry stays in the source directory under its new name as well (a ghost the directory cannot be removed with)",
+                   construct="index:rename:renamed before removal")
     if n_ops < 4:
         ctx.floor_errors.append(f"rule=C18.INDEX: {n_ops} index uses found (floor 4)")
     # the nursery hands every new backend the state of the first one
